@@ -388,7 +388,7 @@ def main(mod, argv=None):
     seeds = [base + i for i in range(nruns)]
     print("VERIF_SEED=%d tier=%s property=%s runs=%d workers=%d repo=%s head=%s" % (
         a.seed, tier, prop, nruns, a.workers, env.REPO, _git_head(env.REPO)), flush=True)
-    wall_cap = getattr(mod, "WALL_CAP", 300)
+    wall_cap = getattr(mod, "WALL_CAP", 600)
     chunk = max(1, min(getattr(mod, "CHUNK", 8), nruns // (a.workers * 4) or 1))
     chunks = [(seeds[i:i + chunk], tier, wall_cap) for i in range(0, len(seeds), chunk)]
     results = []
